@@ -133,7 +133,8 @@ def tree(flavour="plain", targets=("vm",), hooks=True):
                 f.write(" ".join(sorted(done)))
             sys.stderr.write("[build] %s %s %s in %.1fs\n" % (hh, flavour, " ".join(need), time.time() - t0))
         os.utime(gen, None)
-    _prune(hh)
+    if not os.environ.get("VERIF_NO_PRUNE"):     # the parallel seed runner keeps several trees alive at once
+        _prune(hh)
     return tdir
 
 
